@@ -29,7 +29,7 @@ KINDS = ("edge", "int", "str", "mixed", "mixed", "exotic")
 # exotic elements: JSON tokens resolved per run to ONE object each (NaN has irreflexive equality: only identity makes it a
 # member; 1 / 1.0 / True and 0 / -0.0 / False are equal with equal hashes and must behave as one element)
 EXOTIC = ["__nan__", "__nan2__", "__nan_tuple__", 1, 1.0, True, 0, -0.0, False, "", [], "__none__", [1, 1.0], 2 ** 61 - 1, -1, -2,
-          "__decimal_nan__"]
+          "__decimal_nan__", 5, 5 + 2 ** 61 - 1, [5, 7], [5 + 2 ** 61 - 1, 7]]      # different elements with equal hashes
 
 
 def _universe(prng, kind, n):
